@@ -3,6 +3,7 @@ SPEC = {
     "theorems": [
         "AM.Silence.merge_refuses_past_retention", "AM.Silence.merge_monotone", "AM.Silence.merge_result",
         "AM.Silence.merge_idem_no_gossip", "AM.Silence.merge_old_no_gossip",
+        "AM.Silence.accepted_iff_changed", "AM.Silence.merge_relays_accepted", "AM.Silence.merge_update_relayed",
         "AM.Silence.merge_comm", "AM.Silence.fold_merge_perm",
         "AM.Silence.newest_wins", "AM.Silence.converges",
         "AM.Silence.decodeBatch_last_wins", "AM.Silence.mergeBatch_st",
@@ -26,7 +27,7 @@ SPEC = {
             "incompatible edit, among them every one-component variation of the matcher sets) and Expire whose broadcasts are captured into a pool, scripted channel delivering pool entries "
             "(late, duplicated, reordered, dropped, batched 1-3 with last-record-wins, crafted versions around the tie and retention "
             "boundaries, oversized), full-state push (MarshalBinary -> Merge), GC, snapshot reload, Query (QIDs/QSince/QState/QMatches) "
-            "and Mutes; instants on a 1 s grid; one third of the cases are convergence cases (distinct update instants per id, retention "
+            "and Mutes; instants on a 1 s grid; a quarter of the cases with a MaxSilences limit of 1-3 (Set answers `limit`, Merge ignores it); every record a Merge accepted is counted against the re-broadcasts (merge_relays_accepted); one third of the cases are convergence cases (distinct update instants per id, retention "
             "1000 s) that end by delivering the whole pool to every instance in its own order and comparing the instances; "
             "a case is non-trivial when it hits a tagged branch (merge:newer/older/tie/duplicate/past-retention/revival/oversized, "
             "set:in-place/replace/silently-dropped, expire:*, gc:removed, converge:checked, mutes:*); distinct = distinct hash of the op lines",
